@@ -73,7 +73,32 @@ class _WriteProxy:
         return self
 
     def __exit__(self, *a):
+        # the implicit close() of `with open(..., 'w') as f:` - a call of its own that can fail
+        self._close_fault()
         return self._f.__exit__(*a)
+
+    def close(self):
+        self._close_fault()
+        return self._f.close()
+
+    def _close_fault(self):
+        """close_fault = "before": close() reports an error, the bytes are what the writes left;
+        "mid": the flush got half way (the file keeps half of its bytes).  Fires once, on the
+        first tracked write handle that is closed."""
+        ffs = self._ffs
+        mode = ffs.close_fault
+        if not mode or ffs.close_fired or self._f.closed:
+            return
+        ffs.close_fired = True
+        ffs.fired = True
+        ffs.nfired += 1
+        ffs.fired_ops.append("(close %s)" % self._role)
+        self._f.flush()
+        if mode == "mid":
+            fd = self._f.fileno()
+            os.ftruncate(fd, os.fstat(fd).st_size // 2)
+        self._f.close()
+        ffs._raise("oserror")
 
     def __iter__(self):
         return iter(self._f)
@@ -91,10 +116,13 @@ class _WriteProxy:
 
 
 class FaultFS:
-    def __init__(self, mod, roles, fault=None):
+    def __init__(self, mod, roles, fault=None, close_fault=None):
         """mod: the command module; roles: {absolute path: role name};
-        fault: None | (k, mode, kind) | a list of such triples."""
+        fault: None | (k, mode, kind) | a list of such triples;
+        close_fault: None | "before" | "mid" - the close() of the first tracked write handle fails."""
         self.mod = mod
+        self.close_fault = close_fault
+        self.close_fired = False
         self.roles = dict(roles)
         if fault is None:
             self.faults = []
@@ -344,13 +372,13 @@ class FaultFS:
 _MISSING = object()
 
 
-def run_tool(mod, argv, roles=None, fault=None, stdin_text=None, observe_io=True):
+def run_tool(mod, argv, roles=None, fault=None, stdin_text=None, observe_io=True, close_fault=None):
     """Run mod.main() in-process.  Returns dict(status, crash, trace, stdout,
     stderr, fired).  status: the SystemExit code (None -> 0), or 1 with
     crash=<exception class name> when an exception escaped main() (the
     interpreter would print a traceback and exit with status 1)."""
     import yamlpath.common.parsers as P
-    ffs = FaultFS(mod, roles or {}, fault)
+    ffs = FaultFS(mod, roles or {}, fault, close_fault)
     old = (sys.argv, sys.stdout, sys.stderr, sys.stdin, P.stdin)
     out, err = io.StringIO(), io.StringIO()
     fake_in = FakeStdin(stdin_text)
